@@ -49,6 +49,15 @@ int main(void)
         C1(sinh) C1(cosh) C1(tanh) C1(sech) C1(csch) C1(coth)
         C1(asinh) C1(acosh) C1(atanh) C1(asech) C1(acsch) C1(acoth)
         RC(sqrt_real) RC(asin_real) RC(acos_real) RC(asec_real) RC(acsc_real) RC(acosh_real) RC(atanh_real)
+        /* documented inverse pairs, composed on the C side (accuracy tie only) */
+        if (!strcmp(f_fn, "exp_log")) { a_complex c; a_complex_log(&c, Z(0)); a_complex_exp(&c, c); putc2(c); ok = 1; }
+        if (!strcmp(f_fn, "log_exp")) { a_complex c; a_complex_exp(&c, Z(0)); a_complex_log(&c, c); putc2(c); ok = 1; }
+        if (!strcmp(f_fn, "inv_inv")) { a_complex c; a_complex_inv(&c, Z(0)); a_complex_inv(&c, c); putc2(c); ok = 1; }
+        if (!strcmp(f_fn, "sqrt_sqr")) { a_complex c; a_complex_sqrt(&c, Z(0)); a_complex_mul(&c, c, c); putc2(c); ok = 1; }
+        if (!strcmp(f_fn, "mul_div_real")) { a_complex c; a_complex_mul_real(&c, Z(0), (a_real)f_arg[2]); a_complex_div_real(&c, c, (a_real)f_arg[2]); putc2(c); ok = 1; }
+        if (!strcmp(f_fn, "div_mul_real")) { a_complex c; a_complex_div_real(&c, Z(0), (a_real)f_arg[2]); a_complex_mul_real(&c, c, (a_real)f_arg[2]); putc2(c); ok = 1; }
+        if (!strcmp(f_fn, "mul_div_imag")) { a_complex c; a_complex_mul_imag(&c, Z(0), (a_real)f_arg[2]); a_complex_div_imag(&c, c, (a_real)f_arg[2]); putc2(c); ok = 1; }
+        if (!strcmp(f_fn, "div_mul_imag")) { a_complex c = Z(0); a_complex_div_imag_(&c, (a_real)f_arg[2]); a_complex_mul_imag_(&c, (a_real)f_arg[2]); putc2(c); ok = 1; }
         if (!ok) { printf(" unknown:%s", f_fn); }
         printf("\n");
     }
